@@ -17,7 +17,7 @@ func init() {
 		RealParts:  []string{"Species.adjustFitness / countOffspring, Population.purgeZeroOffspringSpecies / giveBabiesToTheBest / deltaCoding / purgeOrganisms, both epoch executors"},
 		StubParts:  []string{"fitness assignment (seeded landscape with at least one positive value)", "goroutine choice in parallel worlds"},
 		Assumes:    []string{"the age adjustment is constrained to be one uniform positive factor per species, decided by the species history at the start of the epoch: 1 or the age-significance option when the last improvement is more than two generations short of the drop-off age, below half of that when it is two or more generations past it; penalty constants and the exact boundary are not mirrored", "1e-9 relative tolerance; where a cumulative expectation lies within 1e-6 of an integer either rounding is accepted"},
-		ProbeNames: []string{"probe.multi_species_epoch", "probe.options_changed_between_epochs", "probe.makeup_offspring", "probe.delta_coding", "probe.stolen_babies", "probe.zero_quota_species", "probe.stagnant_species_penalised", "probe.long_stagnant_species", "probe.species_scoring_zero", "probe.young_species_boost", "probe.culling_removed_parents", "probe.survival_product_whole"},
+		ProbeNames: []string{"probe.multi_species_epoch", "probe.options_changed_between_epochs", "probe.makeup_offspring", "probe.delta_coding", "probe.stolen_babies", "probe.zero_quota_species", "probe.stagnant_species_penalised", "probe.long_stagnant_species", "probe.species_scoring_zero", "probe.young_species_boost", "probe.culling_removed_parents", "probe.survival_product_whole", "probe.species_age_surgery", "probe.young_and_stagnant_species", "probe.young_stagnant_vs_old_stagnant"},
 	})
 	Register(&Scenario{
 		Prop: "C10", Run: scenarioC10, QuickRuns: 4800, ThoroughRuns: 120000, Level: "exploration",
@@ -108,6 +108,60 @@ func checkQuotas(c *RunCtx, w *World, snap *EpochSnap) {
 			} else if since+2 < w.Opts.DropOffAge {
 				if !closeRel(factor, 1) && !closeRel(factor, A) {
 					c.Fail("stagnation-penalty", "%s: species %d (age %d) improved %d generations ago, the drop-off age is %d, yet adjusted fitness = raw * %.12g / size; expected factor 1 or the age significance %.6g", where, ss.Id, ss.Age, since, w.Opts.DropOffAge, factor, A)
+				}
+			}
+		}
+	}
+	// (2b) the two age adjustments are independent of each other: a species that is young (at most as old as a species
+	// seen boosted in this very epoch) and stagnant is boosted and penalised, so its factor is the age significance times
+	// the factor of a stagnant species that is old (at least as old as a non-stagnant species seen unboosted in this
+	// epoch). The witnesses come from the epoch itself: neither the young-age limit nor the penalty is mirrored.
+	if A != 1 {
+		type sf struct {
+			id, age int
+			f       float64
+		}
+		youngMax, oldMin := -1, math.MaxInt
+		var stagn []sf
+		for _, ss := range snap.Species {
+			n := float64(len(ss.Members))
+			f := math.NaN()
+			for _, o := range ss.Members {
+				if raw := rawOf(snap, o); raw != 0 {
+					f = P.Adj[o] * n / raw
+					break
+				}
+			}
+			if math.IsNaN(f) {
+				continue
+			}
+			since := ss.Age - ss.AgeOfLastImprovement
+			switch {
+			case since+2 < w.Opts.DropOffAge:
+				if closeRel(f, A) && ss.Age > youngMax {
+					youngMax = ss.Age
+				}
+				if closeRel(f, 1) && ss.Age < oldMin {
+					oldMin = ss.Age
+				}
+			case since >= w.Opts.DropOffAge+2:
+				stagn = append(stagn, sf{ss.Id, ss.Age, f})
+			}
+		}
+		if youngMax < oldMin {
+			for _, y := range stagn {
+				if y.age > youngMax {
+					continue
+				}
+				c.Count("probe.young_and_stagnant_species")
+				for _, o := range stagn {
+					if o.age < oldMin {
+						continue
+					}
+					c.Count("probe.young_stagnant_vs_old_stagnant")
+					if !closeRel(y.f, A*o.f) {
+						c.Fail("age-adjustments-independent", "%s: species %d (age %d) is young - a species of age %d got the age-significance boost %.6g in this epoch - and stagnant; species %d (age %d) is stagnant and not young - a species of age %d got no boost. Their adjustment factors are %.12g and %.12g; boost and stagnation penalty both apply to the former, so the ratio must be the age significance", where, y.id, y.age, youngMax, A, o.id, o.age, oldMin, y.f, o.f)
+					}
 				}
 			}
 		}
@@ -283,12 +337,32 @@ func scenarioC09(c *RunCtx) {
 	c.Sample = w.Describe()
 	c.Op("world: %s", w.Describe())
 	epochs := t.Range("epochs", 1, maxEpochs)
+	ageSurgery := t.Chance("ageSurgery", 1, 3)
 	for e := 0; e < epochs; e++ {
 		if e > 0 && t.Chance("reconfigure", 1, 6) {
 			// the caller hands the next epoch a new Options object (same executor, same population)
 			what := w.Reconfigure()
 			c.Count("probe.options_changed_between_epochs")
 			c.Op("options changed before epoch %d: %s", e, what)
+		}
+		if ageSurgery && len(w.Pop.Species) >= 3 && t.Chance("ageSurgery.now", 1, 2) {
+			// "all species ages": the caller hands the epoch a population whose species have other histories (a population
+			// assembled from saved species, a migration between islands): ages and last-improvement ages are public fields
+			c.Count("probe.species_age_surgery")
+			desc := ""
+			for _, sp := range w.Pop.Species {
+				sp.Age = []int{1, 2, 4, 7, 9, 12, 16, 25, 40}[t.Draw("ageSurgery.age", 9)]
+				switch t.Pick("ageSurgery.improved", 2, 1, 2) {
+				case 0:
+					sp.AgeOfLastImprovement = sp.Age // improved just now
+				case 1:
+					sp.AgeOfLastImprovement = sp.Age - t.Draw("ageSurgery.since", sp.Age+1)
+				case 2:
+					sp.AgeOfLastImprovement = 0 // never since it was founded
+				}
+				desc += fmt.Sprintf(" #%d:age=%d,improved@%d", sp.Id, sp.Age, sp.AgeOfLastImprovement)
+			}
+			c.Op("species ages set before epoch %d:%s", e, desc)
 		}
 		snap := StepEpoch(c, w, false, nil, c.LibSoft)
 		c.Steps++
